@@ -174,6 +174,8 @@ M_EKS == INSTANCE UnaryEigRules WITH Mutant <- "ExpKronSumAsKronSum"
 M_ESA == INSTANCE UnaryEigRules WITH Mutant <- "EigSortAlgebraic"
 M_ELH == INSTANCE UnaryEigRules WITH Mutant <- "EigLMHead"
 M_ETR == INSTANCE UnaryEigRules WITH Mutant <- "EigTriFirstRow"
+M_UANC == INSTANCE UnaryEigRules WITH Mutant <- "UnaryAdjointNoConj"
+M_PKNS == INSTANCE UnaryEigRules WITH Mutant <- "PowKronNoSquareGuard"
 CtlState == CtlDim > 0 /\ ShapeOf(t)[1] <= CtlDim /\ lvl <= CtlLvl
 UFs == {ExactFs[i].f: i \in 1..Len(ExactFs)}
 EigArgs == {<<k, wh, a>>: k \in 1..ShapeOf(t)[1], wh \in {"LM", "SM"}, a \in {"Auto", "Eig"}}
@@ -184,6 +186,8 @@ CtlOut ==
         nc == {<<"UnaryBlockNoMult", \A f \in UFs: M_UBNM!UnarySoundAtS(t, s, f, "Auto")>>,
                <<"UnaryTransposeAsAdjoint", \A f \in UFs: M_UTAA!UnarySoundAtS(t, s, f, "Auto")>>,
                <<"UnaryIdentityNoF", \A f \in UFs: M_UINF!UnarySoundAtS(t, s, f, "Auto")>>,
+               <<"UnaryAdjointNoConj", \A f \in UFs: M_UANC!UnarySoundAtS(t, s, f, "Auto")>>,
+               <<"PowKronNoSquareGuard", \A k \in 0..9: M_PKNS!PowIntCompleteAt(t, k, "Auto")>>,
                <<"PowKronAsKronSum", \A al \in FracAlphas: M_PKKS!PowFracSoundAtS(t, s, al, "Auto")>>,
                <<"WindNoCarry", \A al \in FracAlphas: M_WNC!PowKronDomainAt(t, al, "Auto")>>,
                <<"PowIntOffByOne", \A k \in {1, 2}: M_PIO!PowIntSoundAtS(t, s, k, "Auto")>>,
@@ -192,9 +196,7 @@ CtlOut ==
                <<"EigSortAlgebraic", hs => \A x \in EigArgs: M_ESA!EigSoundAtB(t, bag, x[1], x[2], x[3])>>,
                <<"EigLMHead", hs => \A x \in EigArgs: M_ELH!EigSoundAtB(t, bag, x[1], x[2], x[3])>>,
                <<"EigTriFirstRow", hs => \A x \in EigArgs: M_ETR!EigSoundAtB(t, bag, x[1], x[2], x[3])>>}
-        wit == {<<"UnaryRuleSoundEverywhere", \A f \in UFs: UnarySoundEverywhereAt(t, f, "Auto")>>,
-                <<"PowKronSoundEverywhere", \A al \in FracAlphas: PowFracSoundEverywhereAt(t, al, "Auto")>>,
-                <<"PowIntCompleteEverywhere", \A k \in 0..9: PowIntCompleteEverywhereAt(t, k, "Auto")>>,
+        wit == {<<"PowKronSoundEverywhere", \A al \in FracAlphas: PowFracSoundEverywhereAt(t, al, "Auto")>>,
                 <<"EigRuleSoundEverywhere", hs => \A wh \in {"LM", "SM"}: EigSoundEverywhereAt(t, 0, wh, "Auto")>>}
     IN [nc |-> {x[1]: x \in {y \in nc: ~y[2]}}, wit |-> {x[1]: x \in {y \in wit: ~y[2]}}]
 
@@ -227,9 +229,7 @@ EigRuleSound ==
         LET bag == SpecBag(SpecG(t)) IN
         \A k \in 1..ShapeOf(t)[1]: \A wh \in {"LM", "SM"}: \A a \in {"Auto", "Eig"}: EigSoundAtB(t, bag, k, wh, a)
 \* ---- expected to FAIL (defect witnesses, run separately by the harness)
-UnaryRuleSoundEverywhere == Chk => \A i \in 1..Len(ExactFs): UnarySoundEverywhereAt(t, ExactFs[i].f, "Auto")
 PowKronSoundEverywhere == Chk => \A al \in FracAlphas: PowFracSoundEverywhereAt(t, al, "Auto")
-PowIntCompleteEverywhere == Chk => \A k \in 0..9: PowIntCompleteEverywhereAt(t, k, "Auto")
 EigRuleSoundEverywhere ==
     (Chk /\ HasSpecG(t) /\ SqT) => \A wh \in {"LM", "SM"}: EigSoundEverywhereAt(t, 0, wh, "Auto")
 ShapeConsistent == Chk => LET d == Denote(t) IN <<d.r, d.c>> = ShapeOf(t)
